@@ -54,36 +54,41 @@ def run(ctx):
     allowed = {m.id for m in table.methods}
     aborts = list(F.all_calls('AbortHandle::abort'))
     bad = [(g, t) for g, bb, t in aborts if F.enclosing_item(g) is None or F.enclosing_item(g).id not in allowed]
-    R.ob('C06.abort', ('AbortHandle::abort', 'callers'), not bad and len(aborts) >= 3,
+    # an abort site inside a private helper of the table counts for every entry point (public method / Drop) whose bodies include it
+    entry_points = [m for m in table.methods if not table.is_helper(m) or (m.impl_of and (m.impl_of.get('trait') or '').endswith('Drop'))]
+    owners = {}
+    for g, bb, t in aborts:
+        owners[(g.id, bb)] = [m for m in entry_points if any(b.id == g.id for b in table.bodies(m))]
+    n_roles = sum(len(v) for v in owners.values())
+    R.ob('C06.abort', ('AbortHandle::abort', 'callers'), not bad and n_roles >= 3,
          'handlers are aborted only by the table: aborting removal, expiry, and Drop', [g.loc(t) for g, t in bad] or [g.loc(t) for g, _, t in aborts])
-    # each abort outside Drop acts on the handle of an entry just removed, keyed by the method's own id parameter
+    # each abort outside Drop acts on the handle of an entry just removed, keyed by the entry point's own id parameter
     # (cancel removal) or by the fired timer (expiry)
     for g, bb, t in aborts:
-        m = F.enclosing_item(g)
-        if m is None or (m.impl_of and (m.impl_of.get('trait') or '').endswith('Drop')):
-            continue
-        rs = P.root(P.operand(g, t['args'][0], at=bb))
-        ok = bool(rs)
-        for r, p in rs:
-            if not (P.is_call(r, 'HashMap::remove', 'HashMap::remove_entry') and abort_field in P.fpath(p)):
-                ok = False
+        for m in owners[(g.id, bb)]:
+            if m.impl_of and (m.impl_of.get('trait') or '').endswith('Drop'):
                 continue
-            kr = P.root(P.args_of(r)[1], through_params='closures')
-            if not (kr and all((x[0] == 'param' and x[1] == m.id) or P.is_call(x, 'DelayQueue::poll_expired') for x, _ in kr)):
-                ok = False
-        R.ob('C06.abort', ('AbortHandle::abort', m.npath, 'acts on the removed entry'), ok,
-             'a handler is aborted only together with forgetting its own entry (removed by the given id or by the fired timer)', [g.loc(t)])
+            ctxs = {b.id for b in table.bodies(m)}
+            rs = P.root(P.operand(g, t['args'][0], at=bb))
+            ok = bool(rs)
+            for r, p in rs:
+                if not (P.is_call(r, 'HashMap::remove', 'HashMap::remove_entry') and abort_field in P.fpath(p)):
+                    ok = False
+                    continue
+                kr = P.root(P.args_of(r)[1], through_params=table.is_helper, callers=ctxs)
+                if not (kr and all((x[0] == 'param' and x[1] == m.id) or P.is_call(x, 'DelayQueue::poll_expired') for x, _ in kr)):
+                    ok = False
+            R.ob('C06.abort', ('AbortHandle::abort', m.npath, 'acts on the removed entry'), ok,
+                 'a handler is aborted only together with forgetting its own entry (removed by the given id or by the fired timer)', [g.loc(t)])
     roles = {}
     for g, bb, t in aborts:
-        m = F.enclosing_item(g)
-        if m is None:
-            continue
-        if m.impl_of and (m.impl_of.get('trait') or '').endswith('Drop'):
-            roles['drop'] = m
-        elif m.id == exp.id:
-            roles['expiry'] = m
-        else:
-            roles.setdefault('removal', m)
+        for m in owners[(g.id, bb)]:
+            if m.impl_of and (m.impl_of.get('trait') or '').endswith('Drop'):
+                roles['drop'] = m
+            elif m.id == exp.id:
+                roles['expiry'] = m
+            else:
+                roles.setdefault('removal', m)
     R.ob('C06.abort', ('AbortHandle::abort', 'roles'), set(roles) == {'drop', 'expiry', 'removal'}, 'the three abort sites are the cancel removal, the expiry and Drop', [m.loc(m.d) for m in roles.values()])
     R.count('functions_analysed', len(table.methods) + 2)
     # source coverage while blocked (E-SHAPE): known finding D5 for limiter chains
